@@ -16,6 +16,9 @@ REG = {
                 "others, incl. definitions that print `_offset_`) with scripts of 4-16 queries on the definitions and their members in varied orders "
                 "(aggregate first, member first, random; numerical expansion of sets and field offsets and analytical queries; types built on "
                 "already-queried objects): every answer must be the Specification's value of that type alone; "
+                "images: in about one case in six the queries are answered by the IMAGE of the built type under a chain of pickle round trips (every protocol) / copy.copy / copy.deepcopy, "
+                "taken before or after the original was queried, and the original is queried again afterwards; in pools definitions are replaced by their images when built (later definitions "
+                "are built on top of images), the whole namespace model or single types are imaged after reading, and definitions are re-imaged between two queries; "
                 "non-trivial = accepted type of depth >= 1 with at least one query; distinct = distinct (type, queries)",
         "technique": "Lean 4 theorems over an executable layout model (structural induction over all type trees), re-checked on every run against Lean definitions translated from the constructors' Python source (py2lean + bridge theorems) + differential correspondence with the real constructors",
         "level_text": "For the modelled type constructors it is proved in Lean 4, for all type trees, that the bit length set expression built by the library denotes the "
@@ -35,7 +38,9 @@ REG = {
                 "definition (padding-rich structures, unions, sealed or delimited) in which `_offset_` is evaluated 2-8 times - at the very start, "
                 "before and after padding fields, constants, comments, regular fields, on both sides of `---`, repeatedly after the last union "
                 "variant, twice in one expression, with member definitions that evaluate `_offset_` themselves - each evaluation compared with the "
-                "real position set at that point; the shared-object pools of C02; non-trivial = accepted type of depth >= 1 with a query",
+                "real position set at that point; the shared-object pools and the pickle / copy / deepcopy images of C02 (about one case in five: every layout observable - bit_length_set, extent, "
+                "alignment, field and element offsets for the base offset sets, `_bit_length_` / `_extent_` printed by the parser against the image - on images taken before and after first queries, "
+                "on the original afterwards, on types built on top of images and on re-imaged pool definitions, judged against the independent reference layout); non-trivial = accepted type of depth >= 1 with a query",
         "technique": "Lean 4 theorems over the executable offset model, re-checked on every run against Lean definitions translated from the iterate_fields_with_offsets generators' Python source (py2lean + bridge theorems) + differential correspondence with iterate_fields_with_offsets / DSDL intrinsics",
         "level_text": "Proved in Lean 4 for all composites, base offset sets and field positions: the offset expressions built by iterate_fields_with_offsets / "
                       "enumerate_elements_with_offsets denote exactly the specified start positions (previous start + any previous length, padded to the field's alignment), one per field in order; "
